@@ -5,7 +5,7 @@ use crate::vnet::{Chooser, ConnInfo, Responder};
 use gamedig::protocols::quake;
 use std::collections::HashMap;
 
-#[derive(Clone, Copy, Debug, PartialEq, Eq)]
+#[derive(Clone, Copy, Debug, PartialEq, Eq, Hash)]
 pub enum Ver {
     One,
     Two,
